@@ -254,7 +254,7 @@ func (s *vKVMap) VerifyConnection(context.Context) error { return nil }
 // save history: whatever was saved before under the browser's ticket -- another identity, an older
 // or a newer session -- the next request loads what the last save wrote; after sign-out no cookie
 // the browser ever held loads anything
-// verif: unwind=8 strlen=16 also=C11,C12 steps=3000000 ideal
+// verif: unwind=8 strlen=24 also=C11,C12 steps=3000000 ideal
 func vh_C10_manager_history() {
 	kv := &vKVMap{m: map[string][]byte{}}
 	opts := vOpts()
